@@ -159,7 +159,6 @@ class Area:
                   ("registers.get_diff", lambda: regs.get_diff(regs)),
                   ("registers.str", lambda: str(regs)),
                   ("registers.eq", lambda: regs == regs)]
-        q.append(("template", lambda: self.template(inst)))
         q.append(("validate(own config)", lambda: self.validate(inst, copy.deepcopy(self.config(obj)))))
         return q
 
@@ -431,6 +430,13 @@ class XmcdArea(Area):
 
     def crc(self, obj) -> bytes:
         return obj.crc
+
+    def queries(self, obj, inst):
+        # XMCD.registers hands out a deep copy on every access: calls on that copy cannot reach the object, and each
+        # comparison afterwards costs 0.3 s
+        return [(n, f) for n, f in super().queries(obj, inst) if not n.startswith("registers.")] + \
+            [("registers(property)", lambda: obj.registers), ("header.verify", lambda: obj.header.verify()),
+             ("header.size", lambda: obj.header.size), ("config_block.registers", lambda: obj.config_block.registers)]
 
     def facts(self, inst):
         f = super().facts(inst)
